@@ -575,3 +575,11 @@ Proof.
   intros e He. unfold visible. rewrite (Hall e He).
   replace (depth <? 0) with true by (symmetry; apply Z.ltb_lt; exact Hd). reflexivity.
 Qed.
+
+Theorem StatOpts_report : forall data depth maxItem opts,
+  match data with Some v => lsupported v | None => True end ->
+  StatOpts data depth maxItem opts = spec_opts data depth maxItem opts.
+Proof.
+  intros data depth m opts S. unfold StatOpts, spec_opts.
+  destruct opts as [|[o|] rest]; cbn [hd_error]; try reflexivity; apply StatText_report; exact S.
+Qed.
